@@ -54,7 +54,10 @@ ATOMS = [
 # integers whose two's-complement 64-bit pattern is the IEEE-754 pattern of a float of the alphabet (-0.0, 1.0, -1.0, inf, nan, 5e-324)
 ATOMS += [int.from_bytes(__import__("struct").pack("!d", f_), "big", signed=True) for f_ in (-0.0, 1.0, -1.0, float("inf"), float("nan"), 5e-324)]
 # a small integer / a float and the string whose UTF-8 bytes are its packed form (struct '!l' / '!d')
-PACKED_TWINS = [(0x61626364, "abcd"), (__import__("struct").unpack("!d", b"abcdefgh")[0], "abcdefgh")]
+PACKED_TWINS = [(0x61626364, "abcd"), (__import__("struct").unpack("!d", b"abcdefgh")[0], "abcdefgh"),
+                # (non-ASCII: the number of characters is not the number of bytes)
+                (__import__("struct").unpack("!l", "a\u20ac".encode("utf-8"))[0], "a\u20ac"),
+                (__import__("struct").unpack("!d", "a\u20acbc\u00e9".encode("utf-8"))[0], "a\u20acbc\u00e9")]
 ATOMS += [x for pair in PACKED_TWINS for x in pair]
 SMALL = [None, True, 0, 1, 2 ** 31, 0.0, float("nan"), "", "a", "|", "__DDS_NONE__", pathlib.PurePosixPath("a")]
 KEYS = ["a", "b", "x", "", "|", 0, 1, None, "1", "0", "None", True, 1.0, "1.0"]   # "x", "a", "b" = the field names of DC1 / DC2
